@@ -16,6 +16,19 @@
 // reference computes λ = M·r and, after a vector edit, λ' = M·r' for the edited exponents r'. A presented vector
 // must verify under a claimed holder iff it equals λ' restricted to that holder's rows (Pedersen: iff the
 // commitments agree, which is decided exactly because the harness knows log_G(H)).
+//
+// Tiers (the factorisation is forced by the cost of one Verify = R·D scalar multiplications, 5-40 ms purego):
+//
+//	quick     k256: whole n<=4 catalogue (179 structures, one rotating identifier assignment) x k=1, with NewBaseShard;
+//	          k256: catalog.Small() x {k=2, k=3, special-A, special-B}; BLS12-381 G1: Small() x k=1;
+//	          edwards25519: five n<=3 structures of Small() x k=1. Altered shares are presented under the owner's,
+//	          the donor's and the length-matching identities.
+//	thorough  k256: catalogue x all identifier assignments x k=1; catalogue x {k=2, k=3, special-A, special-B};
+//	          boolexpr trees with <= 4 leaves x k=1 (identities as in quick); BLS12-381 G1: Small() x all assignments x all five kinds;
+//	          edwards25519: Small() x {k=1, k=2, special-A}. Altered shares under every identity, extra vector
+//	          edits (-G, drop first), matched shares for := identity and swap, NewBaseShard everywhere.
+//
+// C05_DRY=1 / C05_STRIDE=k are sizing and smoke-run aids; a run with either set exits 2 (never a verdict).
 package c05
 
 import (
@@ -365,7 +378,7 @@ func oneAssignment() func(catalog.Entry) []catalog.IDAssignment {
 func TestCheck(t *testing.T) {
 	rule := "every (group, VSS, access structure, identifier assignment, dealing kind) is one execution; inside it: (A) the honest share of every holder is presented under every holder's identity and a non-holder's; every single-coordinate alteration of every holder's share (+1, -1, :=0 on secret and blinding coordinates, := the value of every other coordinate of every holder, drop a coordinate, append 0 / a copy, unequal component lengths) is presented "
 	if engine.Thorough() {
-		rule += "under every identity; "
+		rule += "under every identity (section boolexpr<=4leaves: under the owner's, the donor's and the length-matching identities); "
 	} else {
 		rule += "under the owner's identity, the donor's identity (for a copied value) and every identity whose row count equals the new length (for drop/append); "
 	}
